@@ -285,6 +285,19 @@ pub fn rows(case: &JsonValue) -> JsonValue {
                     Err(e) => e.err_msg.clone().into(),
                 };
                 let mut rows = JsonValue::new_array();
+                // the Amount / Amt/Share / Commission cells of the rendered table (full values)
+                let all_deltas: Vec<_> = r.deltas_or_partial_deltas().clone();
+                let gains = acb::portfolio::calc_security_cumulative_capital_gains(&all_deltas);
+                let table = crate::guarded(|| {
+                    let t = acb::portfolio::render::render_tx_table_model(&all_deltas, &gains, true);
+                    let mut a = JsonValue::new_array();
+                    for row in &t.rows {
+                        a.push(JsonValue::Array(vec![row[4].clone().into(), row[6].clone().into(), row[8].clone().into()]))
+                            .unwrap();
+                    }
+                    a
+                });
+                o["cells"] = table;
                 for d in r.deltas_or_partial_deltas() {
                     let (tx_rate, c_rate) = match &d.tx.action_specifics {
                         TxActionSpecifics::Buy(s) => (
